@@ -483,3 +483,226 @@ theorem C01_incremental (fold : Str → Str) (recs recs' : List Record) (d : Str
   rw [T0 hw' (by rw [hd']; exact hd) q hq, T0 hw (by rw [e2]; exact hd) q hq, hd', e2, hrec, e1]
   simp only [Conv.build, List.nil_append]
   exact answer_perm hu (hperm.symm.trans (sortRecords_perm recs).symm) d q
+
+
+/-! ### grouping: whatever shared a record in an input shares a record in the chain -/
+
+/-- everything `r` lists is listed by `y` -/
+def Within (r y : Record) : Prop := (∀ s ∈ r.allP, s ∈ y.allP) ∧ (∀ s ∈ r.allU, s ∈ y.allU)
+
+theorem Below.within {x y : Record} (h : Below x y) : Within x y := ⟨h.2.2.2.1, h.2.2.2.2⟩
+
+theorem Within.trans {x y z : Record} (h1 : Within x y) (h2 : Within y z) : Within x z :=
+  ⟨fun s hs => h2.1 s (h1.1 s hs), fun s hs => h2.2 s (h1.2 s hs)⟩
+
+/-- a successful `add_record` files the whole new record under one record of the result -/
+theorem addRecord_within (fold : Str → Str) {c c' : Conv} (h : WF c) (r : Record) (cs merge : Bool)
+    (hok : c.addRecord fold r cs merge = .ok c') : ∃ y ∈ c'.records, Within r y := by
+  rcases C05_shape fold h r cs merge hok with e | ⟨j, hj, m, e, _, _, _, _, hP, hU⟩
+  · exact ⟨r, by rw [e]; simp, fun _ hs => hs, fun _ hs => hs⟩
+  · refine ⟨m, by rw [e, List.mem_iff_getElem]; exact ⟨j, by simpa using hj, by simp⟩, ?_, ?_⟩
+    · intro s hs; exact (hP s).mpr (Or.inr hs)
+    · intro s hs; exact (hU s).mpr (Or.inr hs)
+
+theorem chainFold_within (fold : Str → Str) (cs : Bool) (recs : List Record) (c c' : Conv) (h : WF c)
+    (hr : ∀ r ∈ recs, RecOK r) (hok : chainFold fold cs c recs = .ok c') :
+    ∀ r ∈ recs, ∃ y ∈ c'.records, Within r y := by
+  induction recs generalizing c with
+  | nil => intro r hr'; cases hr'
+  | cons a rs ih =>
+    have hok' := hok
+    unfold chainFold at hok
+    rw [List.foldlM_cons] at hok
+    cases h1 : c.addRecord fold a cs true with
+    | error e => simp [h1, bind, Except.bind] at hok
+    | ok c1 =>
+      simp [h1, bind, Except.bind] at hok
+      have hw1 := wf_addRecord fold h (hr a (by simp)) h1
+      have hrs : ∀ x ∈ rs, RecOK x := fun x hx => hr x (by simp [hx])
+      intro r hr'
+      rcases List.mem_cons.mp hr' with rfl | hr'
+      · obtain ⟨y, hy, hry⟩ := addRecord_within fold h r cs true h1
+        obtain ⟨z, hz, hyz⟩ := chainFold_below fold cs rs c1 c' hw1 hrs hok y hy
+        exact ⟨z, hz, hry.trans hyz.within⟩
+      · exact ih c1 hw1 hrs hok r hr'
+
+/-- **C09 (grouping).** Whatever shared a record in an input shares a record in the chain: every
+record of every input is contained, CURIE prefixes and URI prefixes alike, in one record of the
+result.  Both case modes, every folding function. -/
+theorem C09_grouping (fold : Str → Str) (convs : List Conv) (cs : Bool) (hw : ∀ c ∈ convs, WF c) (c' : Conv)
+    (hok : Conv.chain fold convs cs = .ok c') :
+    ∀ c ∈ convs, ∀ r ∈ c.records, ∃ y ∈ c'.records,
+      (∀ s ∈ r.allP, s ∈ y.allP) ∧ (∀ s ∈ r.allU, s ∈ y.allU) := by
+  have hne : convs ≠ [] := by
+    intro e; subst e; cases hok
+  rw [chain_eq fold convs cs hne] at hok
+  intro c hc r hr
+  have hmem : r ∈ convs.flatMap (·.records) := List.mem_flatMap.mpr ⟨c, hc, hr⟩
+  have hrok : ∀ x ∈ convs.flatMap (·.records), RecOK x := by
+    intro x hx
+    obtain ⟨d, hd, hxd⟩ := List.mem_flatMap.mp hx
+    exact (hw d hd).recOK x hxd
+  exact chainFold_within fold cs _ Conv.empty c' wf_empty hrok hok r hmem
+
+/-! ### case-insensitive mode: no two records hold names equal up to case -/
+
+/-- no name of `a` equals a name of `b` after folding -/
+def FoldDisj (fold : Str → Str) (a b : List Str) : Prop := ∀ s ∈ a, ∀ t ∈ b, fold s ≠ fold t
+
+def FoldSep (fold : Str → Str) (recs : List Record) : Prop :=
+  recs.Pairwise fun a b => FoldDisj fold a.allP b.allP ∧ FoldDisj fold a.allU b.allU
+
+theorem FoldDisj.symm {fold : Str → Str} {a b : List Str} (h : FoldDisj fold a b) : FoldDisj fold b a :=
+  fun s hs t ht e => h t ht s hs e.symm
+
+theorem eqCS_ci_false {fold : Str → Str} {a b : Str} (h : eqCS fold false a b = false) : fold a ≠ fold b := by
+  unfold eqCS at h
+  simpa using h
+
+theorem inCS_ci_false {fold : Str → Str} {a : Str} {bs : List Str} (h : inCS fold false a bs = false) :
+    ∀ t ∈ bs, fold a ≠ fold t := by
+  unfold inCS at h
+  simp only [Bool.false_eq_true, if_false, List.any_eq_false] at h
+  intro t ht
+  simpa using h t ht
+
+theorem matchesP_ci_false {fold : Str → Str} {ext r : Record} (h : matchesP fold false ext r = false) :
+    FoldDisj fold ext.allP r.allP := by
+  unfold matchesP at h
+  simp only [Bool.or_eq_false_iff, List.any_eq_false] at h
+  obtain ⟨⟨h1, h2⟩, h3⟩ := h
+  intro s hs t ht
+  simp only [Record.allP, List.mem_cons] at hs ht
+  rcases hs with rfl | hs
+  · rcases ht with rfl | ht
+    · exact eqCS_ci_false h1
+    · exact inCS_ci_false h2 t ht
+  · have := h3 s hs
+    simp only [Bool.or_eq_true, not_or, Bool.not_eq_true] at this
+    rcases ht with rfl | ht
+    · exact eqCS_ci_false this.1
+    · exact inCS_ci_false this.2 t ht
+
+theorem matchesU_ci_false {fold : Str → Str} {ext r : Record} (h : _root_.matchesU fold false ext r = false) :
+    FoldDisj fold ext.allU r.allU := by
+  unfold _root_.matchesU at h
+  simp only [Bool.or_eq_false_iff, List.any_eq_false] at h
+  obtain ⟨⟨h1, h2⟩, h3⟩ := h
+  intro s hs t ht
+  simp only [Record.allU, List.mem_cons] at hs ht
+  rcases hs with rfl | hs
+  · rcases ht with rfl | ht
+    · exact eqCS_ci_false h1
+    · exact inCS_ci_false h2 t ht
+  · have := h3 s hs
+    simp only [Bool.or_eq_true, not_or, Bool.not_eq_true] at this
+    rcases ht with rfl | ht
+    · exact eqCS_ci_false this.1
+    · exact inCS_ci_false this.2 t ht
+
+theorem matchesRec_ci_false {fold : Str → Str} {ext r : Record} (h : matchesRec fold false ext r = false) :
+    FoldDisj fold ext.allP r.allP ∧ FoldDisj fold ext.allU r.allU := by
+  unfold matchesRec at h
+  simp only [Bool.or_eq_false_iff] at h
+  exact ⟨matchesP_ci_false h.1, matchesU_ci_false h.2⟩
+
+/-- one case-insensitive `add_record(merge=True)` keeps the records separated up to case -/
+theorem addRecord_foldSep (fold : Str → Str) {c c' : Conv} (h : WF c) (hs : FoldSep fold c.records) (r : Record)
+    (hok : c.addRecord fold r false true = .ok c') : FoldSep fold c'.records := by
+  rcases addRecord_spec fold h r false true with ⟨hnone, e⟩ | ⟨j, hj, hothers, _, e⟩ | ⟨_, e⟩
+  · rw [e] at hok
+    cases hok
+    show FoldSep fold (c.records ++ [r])
+    unfold FoldSep
+    rw [List.pairwise_append]
+    refine ⟨hs, by simp, ?_⟩
+    intro a ha b hb
+    have : b = r := by simpa using hb
+    subst this
+    have := matchesRec_ci_false (hnone a ha)
+    exact ⟨this.1.symm, this.2.symm⟩
+  · rw [e, if_pos rfl] at hok
+    cases hok
+    show FoldSep fold (c.records.set j (r.mergeInto c.records[j]))
+    -- a record at another position is separated from the merged record
+    have hdm : ∀ i (hi : i < c.records.length), i ≠ j →
+        FoldDisj fold c.records[i].allP (r.mergeInto c.records[j]).allP ∧
+        FoldDisj fold c.records[i].allU (r.mergeInto c.records[j]).allU := by
+      intro i hi hne
+      have hsep : FoldDisj fold c.records[i].allP c.records[j].allP ∧ FoldDisj fold c.records[i].allU c.records[j].allU := by
+        have := List.pairwise_iff_getElem.mp hs
+        rcases Nat.lt_or_gt_of_ne hne with hlt | hgt
+        · exact this i j hi hj hlt
+        · have := this j i hj hi hgt
+          exact ⟨this.1.symm, this.2.symm⟩
+      have hr := matchesRec_ci_false (hothers i hi hne)
+      constructor
+      · intro s hs' t ht
+        rcases (mem_mergeInto_allP r c.records[j] t).mp ht with hh | hh
+        · exact hsep.1 s hs' t hh
+        · exact fun e => hr.1 t hh s hs' e.symm
+      · intro s hs' t ht
+        rcases (mem_mergeInto_allU r c.records[j] t).mp ht with hh | hh
+        · exact hsep.2 s hs' t hh
+        · exact fun e => hr.2 t hh s hs' e.symm
+    unfold FoldSep
+    rw [List.pairwise_iff_getElem]
+    intro i1 i2 hi1 hi2 hlt
+    have hlen : (c.records.set j (r.mergeInto c.records[j])).length = c.records.length := by simp
+    rw [hlen] at hi1 hi2
+    rw [List.getElem_set, List.getElem_set]
+    by_cases e1 : j = i1
+    · subst e1
+      have e2 : ¬ j = i2 := by omega
+      rw [if_pos rfl, if_neg e2]
+      have := hdm i2 hi2 (fun e => e2 e.symm)
+      exact ⟨this.1.symm, this.2.symm⟩
+    · by_cases e2 : j = i2
+      · subst e2
+        rw [if_neg e1, if_pos rfl]
+        exact hdm i1 hi1 (fun e => e1 e.symm)
+      · rw [if_neg e1, if_neg e2]
+        exact List.pairwise_iff_getElem.mp hs i1 i2 hi1 hi2 hlt
+  · rw [e] at hok; cases hok
+
+theorem chainFold_foldSep (fold : Str → Str) (recs : List Record) (c c' : Conv) (h : WF c)
+    (hs : FoldSep fold c.records) (hr : ∀ r ∈ recs, RecOK r) (hok : chainFold fold false c recs = .ok c') :
+    FoldSep fold c'.records := by
+  unfold chainFold at hok
+  induction recs generalizing c with
+  | nil =>
+    simp [List.foldlM, pure, Except.pure] at hok
+    subst hok; exact hs
+  | cons a rs ih =>
+    rw [List.foldlM_cons] at hok
+    cases h1 : c.addRecord fold a false true with
+    | error e => simp [h1, bind, Except.bind] at hok
+    | ok c1 =>
+      simp [h1, bind, Except.bind] at hok
+      exact ih c1 (wf_addRecord fold h (hr a (by simp)) h1) (addRecord_foldSep fold h hs a h1)
+        (fun x hx => hr x (by simp [hx])) hok
+
+/-- **C09 (case-insensitive mode).** With `case_sensitive=False` no two records of the result hold
+CURIE prefixes (or URI prefixes) that are equal up to case — for every folding function. -/
+theorem C09_ci_separated (fold : Str → Str) (convs : List Conv) (hw : ∀ c ∈ convs, WF c) (c' : Conv)
+    (hok : Conv.chain fold convs false = .ok c') :
+    c'.records.Pairwise fun a b =>
+      (∀ s ∈ a.allP, ∀ t ∈ b.allP, fold s ≠ fold t) ∧ (∀ s ∈ a.allU, ∀ t ∈ b.allU, fold s ≠ fold t) := by
+  have hne : convs ≠ [] := by
+    intro e; subst e; cases hok
+  rw [chain_eq fold convs false hne] at hok
+  have hrok : ∀ x ∈ convs.flatMap (·.records), RecOK x := by
+    intro x hx
+    obtain ⟨d, hd, hxd⟩ := List.mem_flatMap.mp hx
+    exact (hw d hd).recOK x hxd
+  exact chainFold_foldSep fold _ Conv.empty c' wf_empty (by simp [FoldSep, Conv.empty, Conv.build]) hrok hok
+
+/-- Non-vacuity: `GO` and `go` in two inputs end up in one record case-insensitively and in two
+records case-sensitively. -/
+example :
+    (let fold : Str → Str := fun s => s.map fun ch => if 65 ≤ ch ∧ ch ≤ 90 then ch + 32 else ch
+     let c1 := Conv.build [58] [⟨[71, 79], [103, 47], [], [], none⟩]
+     let c2 := Conv.build [58] [⟨[103, 111], [104, 47], [], [], none⟩]
+     ((Conv.chain fold [c1, c2] false).toOption.map (·.records.length),
+      (Conv.chain fold [c1, c2] true).toOption.map (·.records.length))) = (some 1, some 2) := by
+  decide
